@@ -1,6 +1,7 @@
 """C09 - arbitrary input text never causes memory errors: bounds obligations at every fixed-size object."""
 from valib.core import kids, strip, walk, walk_with_parents, expr_str, loc_str, callee_name, call_args, ConstEval, ref_name
 from valib import absint as ABS
+from valib import scan as SC
 from valib import pipeline as PL
 from valib import chunk as CH
 
@@ -26,6 +27,9 @@ def run(chk, prog, tier):
     null_rule(chk, prog)
     term_rule(chk, prog, res)
     roles = PL.Roles(prog)
+    # termination of the per-line loop: the scanner makes progress on every text, the driver advances by what was consumed
+    SC.progress_rule(chk, prog, roles)
+    SC.driver_advance_rule(chk, prog, roles)
     CH.division_sites_rule(chk, prog, roles)
     CH.setter_mode_rule(chk, prog)
     CH.counting_mode_rule(chk, prog, roles)
@@ -41,7 +45,10 @@ def run(chk, prog, tier):
         "write position is non-negative; plus keyword clearing lengths, NULL tests of tokeniser results (3 audited sites), "
         "bounded recursion, chunk-size division guarded by the mode invariant, and a fresh zeroed per-line record. "
         "NOT decided: pointer look-around on NUL-terminated strings (p[i+2], p[i-2]) beyond the audited premises, signed "
-        "overflow in value arithmetic, libc preconditions, termination in general.")
+        "overflow in value arithmetic, libc preconditions. (PROGRESS/ADVANCE) termination of the per-line loop: a prefix-concrete "
+        "abstract interpretation of the line parser and its filter (first two characters fixed per character class, rest unknown) shows "
+        "that every non-failing call consumes at least one character whenever the text is not at its NUL, and the driver loop "
+        "advances its cursor by exactly that count, unconditionally, while the character under it is not NUL.")
     chk.assumptions += ["sentinel-terminated const tables are covered by T1/T4 (C01) and SUCC (C05), not by IDX"]
 
 
